@@ -520,7 +520,8 @@ class CompoundInterval(Location):
             interval.parent.strip_location_info() if interval.parent else None for interval in intervals
         }
         if len(interval_parents) > 1:
-            errors.append(f"Intervals must all have same parent: {set([interval.parent.id for interval in intervals])}")
+            parent_ids = {interval.parent.id if interval.parent else None for interval in intervals}
+            errors.append(f"Intervals must all have same parent: {parent_ids}")
         if errors:
             raise ValueError("\n".join(errors))
         return cls._from_single_intervals_no_validation(intervals)
